@@ -65,6 +65,8 @@ def feats_of(body, acc=None, depth=0):
                 acc.add(s)
             if s == "DC":
                 acc.add("conditional-expression")
+            if s.startswith("x +=") or s.startswith("x = x +"):
+                acc.add("derived-definition")
         else:
             acc.add(s[0] if s[2] is None else "if-else")
             feats_of(s[1], acc, depth + 1)
@@ -127,6 +129,11 @@ EXTRA = [
     ["D"] + chain(4) + ["U"], chain(4) + ["D", "U"], [("while", chain(4) + ["U"], None)],
     ["DC", "U"], ["D", "DC", "U"], [("if", ["DC"], None), "U"], [("if", ["DC"], ["D"]), "U"], ["DC", ("if", ["D"], None), "U"],
     [("while", ["DC", "U"], None)], ["DC", "DC", "U"],
+    # definitions derived from the previous value (loop-free only): the value names the chain of definitions it came through
+    ["x += 1000", "U"], ["D", "x += 1000", "U"], ["x += 1000", "U", ("if", ["D"], None), "x = x + 2000", "U"],
+    [("if", ["D"], None), "x += 1000", "U"], [("if", ["x += 1000"], ["D"]), "x = x + 2000", "U"],
+    ["x += 1000", ("if", ["x += 2000"], None), "U"], ["D", "x += 1000", "D", "x += 2000", "U"],
+    [("if", ["D", "x += 1000"], ["x += 2000"]), "U", "x = x + 4000", "U"],
 ]
 
 
@@ -137,7 +144,7 @@ def programs(max_size):
     for size, body in sized:
         if True:
             flat = json.dumps(body)
-            if '"U"' not in flat or '"D' not in flat:
+            if '"U"' not in flat or ('"D' not in flat and "x +=" not in flat):
                 continue
             name = f"entry_{n}"
             n += 1
@@ -221,6 +228,12 @@ def run_batch(batch):
                 if rr.get("operation") == "assign_stmt" and rr.get("target") == "x":
                     opnd = str(rr.get("operand"))
                     const_of[sid0] = temp_consts.get(opnd, {opnd}) if opnd.startswith("%") else {opnd}
+            # derived definitions (x = x + K, loop-free programs only): the values they can write, from the definitions reaching them
+            for sid0 in sorted(const_of):
+                rr = vm.by_id[sid0]
+                if rr.get("operator") == "+" and rr.get("operand") == "x":
+                    const_of[sid0] = {str(int(c) + int(rr.get("operand2"))) for d in rd_in.get(sid0, set()) if d in const_of and d < sid0
+                                      for c in const_of[d] if c.lstrip("-").isdigit()}
             use_stmts = [sid for sid, rr in vm.by_id.items() if rr.get("operation") == "assign_stmt" and rr.get("operand") == "x"
                          and str(rr.get("target", "")).startswith("u") and sid in {n for e in edges for n in e}]
             # dynamic truth over all decision vectors with every loop body run at most once
@@ -281,6 +294,10 @@ def main():
     quick = common.tier() == "quick"
     progs = list(programs(5 if quick else 6))
     batches = [progs[i:i + BATCH] for i in range(0, len(progs), BATCH)]
+    # every 8th file starts with a method that reads a free, undeclared x: the locals named x of the methods after it are
+    # different variables and must be analysed exactly as in a file without it
+    FREE = ("free_reader", "def free_reader(c1, c2, c3, l):\n    u1 = x\n    return u1\n", ["free-reader"], 1)
+    batches = [([FREE] + b if i % 8 == 0 else b) for i, b in enumerate(batches)]
     stats = {"programs": 0, "uses": 0, "sound": 0, "exact_loop_free": 0, "loop_free_uses": 0}
     samples = []
     tested = []
@@ -327,7 +344,8 @@ def main():
                     stats["loop_free_uses"] += 1
                     if set(ovals) == set(classical) and not unk:
                         stats["exact_loop_free"] += 1
-                    elif not missing and not dead:
+                    elif (not missing and not dead) or (unk and missing):
+                        # (an unknown state where every reaching definition writes a constant names no definition at all)
                         rep.feature_violation("loop-free-not-exact", fs, f"use of x at statement {sid}: analysis {ovals}{' + unknown' if unk else ''}, classical solution "
                                               f"{classical}; program:\n{text}", {"source": text, "stmt": sid}, size=size * 1000 + len(text), text=text)
     new, known = rep.finish()
